@@ -278,6 +278,23 @@ def tree_diff(a, b, path=()):
         yield path
 
 
+def norm_doc(s):
+    """a docstring up to layout: common indentation, trailing blanks on lines, blank first / last lines"""
+    import inspect
+
+    return "\n".join(line.rstrip() for line in inspect.cleandoc(s).split("\n")).strip()
+
+
+def norm_docstrings(tree):
+    """docstring *indentation* is layout (like comments and blank lines, which `ast.unparse` + black also rewrite)"""
+    for n in ast.walk(tree):
+        if isinstance(n, (ast.Module, ast.ClassDef, ast.FunctionDef, ast.AsyncFunctionDef)) and n.body:
+            e = n.body[0]
+            if isinstance(e, ast.Expr) and isinstance(e.value, ast.Constant) and isinstance(e.value.value, str):
+                e.value.value = norm_doc(e.value.value)
+    return tree
+
+
 def dump(n):
     return None if n is None else ast.dump(n)
 
@@ -355,15 +372,21 @@ def input_facts(in_tree, ip_comps, in_cands):
     return facts
 
 
+def template_ok(wrap):
+    """only `{output_param}` fields, and an expression once a type is substituted"""
+    try:
+        if wrap.replace("{output_param}", "").count("{") or wrap.count("}") != wrap.count("{output_param}"):
+            return False
+        ast.parse(wrap.replace("{output_param}", "T"), mode="eval")
+        return True
+    except (SyntaxError, ValueError):
+        return False
+
+
 def oracle(case, res):
     """→ (status, [ (sig, what) ]) ; status ∈ ok | skipped:<why> | failed"""
-    if case["wrap"] is not None:
-        try:
-            if case["wrap"].replace("{output_param}", "") .count("{") or case["wrap"].count("}") != case["wrap"].count("{output_param}"):
-                raise ValueError
-            ast.parse(case["wrap"].replace("{output_param}", "T"), mode="eval")
-        except (SyntaxError, ValueError):
-            return "skipped:invalid-template", []
+    if case["wrap"] is not None and not template_ok(case["wrap"]):
+        return "skipped:invalid-template", []
     return _oracle(case, res)
 
 
@@ -371,7 +394,7 @@ def _oracle(case, res):
     fails = []
     if not res["input_same"]:
         fails.append(({"kind": "input-modified"}, "the input file's bytes changed"))
-    before = ast.parse(case["out_src"])
+    before = norm_docstrings(ast.parse(case["out_src"]))
     in_tree = ast.parse(case["in_src"])
     op = [c.strip() for c in case["op"].split(".")]
     ip = [c.strip() for c in case["ip"].split(".")]
@@ -430,7 +453,7 @@ def _oracle(case, res):
         fails.append((sig, "sync_properties %s on a valid pair of paths (%s → %s)%s" % (res["result"], case["ip"], case["op"], ": " + res.get("msg", "") if res.get("msg") else "")))
         return "failed", fails
     try:
-        after = ast.parse(res["after"])
+        after = norm_docstrings(ast.parse(res["after"]))
     except SyntaxError:
         fails.append((dict(region, kind="unparseable-output"), "the rewritten output file is not valid Python"))
         return "failed", fails
@@ -450,7 +473,8 @@ def _oracle(case, res):
             bo = black_only(case["out_src"])
             if bo is not None:
                 try:
-                    if dump(node_at(ast.parse(bo), d)) == dump(node_at(after, d)) if isinstance(node_at(after, d), ast.AST) else node_at(ast.parse(bo), d) == node_at(after, d):
+                    bt = norm_docstrings(ast.parse(bo))
+                    if dump(node_at(bt, d)) == dump(node_at(after, d)) if isinstance(node_at(after, d), ast.AST) else node_at(bt, d) == node_at(after, d):
                         cl["cause"] = "black-docstring-normalisation"
                     else:
                         cl["cause"] = "ast_parse-docstring-reindent"
@@ -458,6 +482,8 @@ def _oracle(case, res):
                     pass
         if cl["where"] == "default" and c0 is None and not case["eval"]:
             cl["slot"] = "not-updated"
+        if "cause" not in cl and probe.get("clash") and cl["where"] in ("statement", "parameter"):
+            cl["cause"] = "string-constant-clash"
         sig = dict(kind="frame", **cl)
         key = json.dumps(sig, sort_keys=True)
         if key not in seen:
@@ -525,7 +551,7 @@ def _oracle(case, res):
                     sig["cause"] = "input-lookup-wrong-node"
                     sig["found"] = f["type"]
         if "cause" not in sig and c0 is None:
-            sig["cause"] = "slot-not-updated"
+            sig["cause"] = "string-constant-clash" if probe.get("clash") else "slot-not-updated"
         fails.append((sig, "the selected slot %s is not what the property describes: %s" % (case["op"], "; ".join(why[:3]))))
     return ("failed" if fails else "ok"), fails
 
@@ -643,6 +669,8 @@ def in_model_domain(case, res):
         return "location-clash-inside-opaque-node"
     if case["eval"] and p.get("eval", {}).get("kind") in ("unsupported", "exec-raises"):
         return "eval-" + p["eval"]["kind"]
+    if case["wrap"] is not None and not template_ok(case["wrap"]):
+        return "template-not-in-normal-form"
     return None
 
 
@@ -724,8 +752,8 @@ def impl_literal(py):
 # ------------------------------------------------------------------------------------------------------------
 def compare(case, res, m):
     """→ None if model and code agree, else (impl view, model view)"""
-    if "error" in m and m["error"] == "unsupported":
-        return "unsupported"
+    if "error" in m and m["error"] in ("unsupported", "arg-in-statement-list"):
+        return m["error"]
     if res["result"] != "ok":
         mv = m.get("error")
         if mv != res["result"]:
@@ -817,8 +845,9 @@ def run(chk: core.Check) -> int:
             dist["model_domain_excluded"][why] = dist["model_domain_excluded"].get(why, 0) + 1
             continue
         d = cmp_out[k]
-        if d == "unsupported":
+        if d in ("unsupported", "arg-in-statement-list"):
             n_skip += 1
+            dist["model_domain_excluded"][d] = dist["model_domain_excluded"].get(d, 0) + 1
             continue
         n_cmp += 1
         if d is not None:
